@@ -372,6 +372,13 @@ class Parser:
         return None
 
     def parse(self, rule: str, call_invalid_rules: bool = False) -> ast.AST | Any | None:
+        try:
+            return self._parse(rule, call_invalid_rules)
+        except RecursionError:
+            # the recursive-descent methods ran out of stack: report it like any other unparsable input
+            self.raise_syntax_error("too many nested parentheses or expressions")
+
+    def _parse(self, rule: str, call_invalid_rules: bool = False) -> ast.AST | Any | None:
         self.call_invalid_rules = call_invalid_rules
         res = getattr(self, rule)()
 
